@@ -35,5 +35,11 @@ verus! {
 // the head of the body of `for (k, v) in mapping` in parse_mapping: what a mapping KEY means (C02, C17)
 //%slice parser.rs key_head fn parse_mapping ;; after:for (k, v) in mapping { ;; block:let (e, f) = match k { ;; fn key_head(k: &Yaml, v: &Yaml, mut misc: Option<ModSym>) -> crate::Result<(Expression, String, Option<ModSym>)> ;; Ok((e, f, misc))
 
+
+// parse_identifier: what an identifier's YAML value means as a whole - a mapping is its block, a sequence of mappings is
+// the disjunction of the blocks in written order (C02, C17); parse_mapping itself stands here as an opaque function of the
+// mapping (eleven of its blocks are verified as slices in units batch / members / keys)
+//%include prelude/identseq.rs
+//%item parser.rs parse_identifier pub fn parse_identifier
 } // verus!
 fn main() {}
